@@ -99,15 +99,25 @@ def mutate(data, m):
 
 
 def mut_job(j):
-    cfg, saved, cmd, muts, seed = j
+    cfg, saved, cmd, muts, seed = j[:5]
     L = X.materialize(cfg, saved, seed)
     exe = build.snapraid("asan")
     orig = L.content_bytes()
+    if len(j) > 5 and j[5]:
+        orig = bytes.fromhex(j[5]).replace(j[6].encode(), L.root.encode()) if j[6] else bytes.fromhex(j[5])
+        if j[6]:
+            from vp import ref
+            orig = orig[:-4] + ref.crc32c(orig[:-4]).to_bytes(4, "little")
     cpath = L.content_paths()[0]
     out = []
     snap0 = None
     for m in muts:
         data = mutate(orig, m)
+        if data == orig:
+            # the copy materialised in this worker differs from the one the mutation list was computed on (re-based split
+            # paths -> other CRC bytes): a "mutation" that leaves these bytes unchanged is not a mutation
+            out.append("not-a-mutation")
+            continue
         with open(cpath, "wb") as f:
             f.write(data)
         before = L.snap()
@@ -146,7 +156,8 @@ def mut_job(j):
             kind = "modified-files-after-rejecting"
         outcome = "abort" if rc == -6 else "exit%d" % rc
         if kind:
-            out.append(dict(kind=kind, mutation=m, cmd=cmd, rc=rc, changed=sorted(changed)[:4], out=text[-400:]))
+            out.append(dict(kind=kind, mutation=m, cmd=cmd, rc=rc, changed=sorted(changed)[:4], out=text[-400:],
+                            content_hex=orig.hex()))     # inode numbers make the bytes differ from run to run: keep them for the replay
         out.append(outcome)
     with open(cpath, "wb") as f:
         f.write(orig)
@@ -244,7 +255,8 @@ def run(ctx):
                 for v in r["viols"]:
                     ctx.violation("C09/load/%s/%s" % (cmd[0], v["kind"]),
                                   "%s: shape %s mutation %r command %s" % (v["kind"], name, v["mutation"], " ".join(cmd)),
-                                  dict(part="load", shape=name, cfg=cfg.describe(), ops=ops, cmd=cmd, mutation=v["mutation"], violation=v))
+                                  dict(part="load", shape=name, cfg=cfg.describe(), ops=ops, cmd=cmd, mutation=v["mutation"], root=saved["root"],
+                                       content_hex=v.pop("content_hex", None), violation=v))
             if done < len(muts):
                 ctx.cap("%s/%s: deadline (%d of %d mutations)" % (name, cmd[0], done, len(muts)))
             ctx.set("mutations[%s/%s]" % (name, cmd[0]), done)
@@ -323,7 +335,7 @@ def replay(r):
             X.apply_op(L0, tuple(op))
         saved = L0.save()
         if r["part"] == "load":
-            out = mut_job((cfg, saved, tuple(r["cmd"]), [tuple(r["mutation"])], 0))
+            out = mut_job((cfg, saved, tuple(r["cmd"]), [tuple(r["mutation"])], 0, r.get("content_hex"), None))
         elif r["part"] == "atomic":
             old = L0.content_bytes()
             versions = {vkey(old)}
